@@ -482,6 +482,52 @@ fn stress(ctx: &Ctx) -> SubReport {
     let tag = CASE_COUNTER.fetch_add(1, Ordering::Relaxed);
     let contents: Vec<Vec<u8>> = (0..3).map(|c| format!("c18-stress-{tag}-{c}").into_bytes()).collect();
     let errors: Mutex<Vec<String>> = Mutex::new(Vec::new());
+    // phase 1 - churn: groups of threads create and immediately drop one content, so its reference
+    // count crosses zero as often as possible while other threads are inside new() for the same
+    // content; a checker per group holds two handles made back to back and compares their buffers.
+    let churn_iters = ctx.cfg.tier.pick(150_000usize, 3_000_000);
+    let churn_contents: Vec<Vec<u8>> = (0..4).map(|c| format!("c18-churn-{tag}-{c}").into_bytes()).collect();
+    std::thread::scope(|s| {
+        for t in 0..threads {
+            let content = &churn_contents[t % churn_contents.len()];
+            let errors = &errors;
+            let checker = t >= 12;
+            s.spawn(move || {
+                let res = crate::engine::catch(|| {
+                    for i in 0..churn_iters {
+                        let a = SharedString::new(content.clone());
+                        if checker {
+                            let b = SharedString::new(content.clone());
+                            if a.data().as_ptr() != b.data().as_ptr() {
+                                return Err(format!("round {i}: two live handles of one content do not share a buffer"));
+                            }
+                            if a != b {
+                                return Err(format!("round {i}: equal contents compare unequal"));
+                            }
+                        }
+                        if a.data() != content.as_slice() {
+                            return Err(format!("round {i}: wrong bytes"));
+                        }
+                    }
+                    Ok(())
+                });
+                match res {
+                    Ok(Ok(())) => {}
+                    Ok(Err(e)) => errors.lock().unwrap().push(format!("churn: {e}")),
+                    Err(info) => errors.lock().unwrap().push(format!("churn: a SharedString operation panicked: {}", crate::engine::normalise_msg(&info.msg))),
+                }
+            });
+        }
+    });
+    for c in &churn_contents {
+        match crate::engine::catch(|| rbx_types::verif_cache_has(c)) {
+            Ok(true) => errors.lock().unwrap().push("churn: intern table still holds an entry after every handle was dropped".into()),
+            Ok(false) => {}
+            Err(_) => errors.lock().unwrap().push("churn: the intern table lock is poisoned".into()),
+        }
+    }
+    r.evaluations += (churn_iters * threads) as u64;
+    if errors.lock().unwrap().is_empty() {
     std::thread::scope(|s| {
         for t in 0..threads {
             let contents = &contents;
@@ -528,20 +574,24 @@ fn stress(ctx: &Ctx) -> SubReport {
             });
         }
     });
-    r.evaluations = (iters * threads) as u64;
+    }
+    r.evaluations += (iters * threads) as u64;
     r.distinct_nontrivial = r.evaluations;
     r.notes.push("uncontrolled schedule: a stress sample, not an exhaustive exploration".into());
     r.samples.push(serde_json::json!({"threads": threads, "ops_per_thread": iters, "contents": 3}));
     let mut errs = errors.into_inner().unwrap();
-    for c in &contents {
-        if rbx_types::verif_cache_has(c) {
-            errs.push("intern table still holds an entry after every handle was dropped".into());
+    if errs.is_empty() {
+        for c in &contents {
+            if rbx_types::verif_cache_has(c) {
+                errs.push("intern table still holds an entry after every handle was dropped".into());
+            }
         }
     }
     if let Some(e) = errs.first() {
         let path = crate::engine::write_replay("C18", "free-running-stress", &serde_json::json!({"iters": iters}), "c18:stress", e);
+        let class = if e.contains("panicked") || e.contains("poisoned") { "panic" } else if e.contains("share") { "not-shared" } else { "state" };
         r.failures.push(crate::engine::Failure {
-            key: format!("c18:stress:{e}"),
+            key: format!("c18:stress:{class}"),
             msg: e.clone(),
             replay: Some(path),
         });
